@@ -74,6 +74,44 @@ func established(c *FC, key string, wantTrue bool, at ssa.Instruction) bool {
 	return false
 }
 
+var paramTok = regexp.MustCompile(`\bp(\d+)\b`)
+
+// establishedCtx: established in c.fn itself, or — when c.fn is a NEW helper and key speaks
+// about its parameters — at every call site of the helper, with the arguments substituted
+// (the guard was left in the caller, or in a sibling helper the caller runs first).
+func establishedCtx(c *FC, key string, wantTrue bool, at ssa.Instruction, depth int) bool {
+	if established(c, key, wantTrue, at) {
+		return true
+	}
+	if depth >= 3 || !c.p.newHelper(c.fn) || !paramTok.MatchString(key) || len(c.p.funcValueUses(c.fn)) > 0 {
+		return false
+	}
+	callers := c.p.rawCallersOf(c.fn)
+	if len(callers) == 0 {
+		return false
+	}
+	for caller, calls := range callers {
+		cc := c.p.fc(c.r, caller, funcName(caller), nil)
+		if cc == nil {
+			return false
+		}
+		for _, call := range calls {
+			k2 := paramTok.ReplaceAllStringFunc(key, func(m string) string {
+				var i int
+				fmt.Sscanf(m, "p%d", &i)
+				if i < len(call.Call.Args) {
+					return cc.x.Of(call.Call.Args[i], call).String()
+				}
+				return m
+			})
+			if !establishedCtx(cc, k2, wantTrue, call, depth+1) {
+				return false
+			}
+		}
+	}
+	return true
+}
+
 func runC20(p *Prog, r *Report, tier string) {
 	r.Rule = "inventory of panic-capable constructs (explicit panic, slice, index, map update, type assertion, integer division, nil dereference of request/result pointers, nil-able math.Int uses, panicking constructors) in every module function reachable from 25 tx + 19 query + codec + CLI-address entry points; each discharged by the in-bounds prover, a dominating guard, a callee contract, or a reasoned allow-list entry"
 	r.Explanation = "Decided: in the module functions reachable from the entry points every slice/index expression is proved in bounds from constant sizes, fixed-width Parse fields and dominating length guards (three sites in the attestation verifier are allow-listed with their reason and their guards are checked to be established); " +
@@ -648,8 +686,8 @@ func checkCtors(p *Prog, r *Report, reach map[*ssa.Function]bool, fc func(*ssa.F
 					n++
 					d := c.x.Of(args[0], call).String()
 					a := c.x.Of(args[1], call).String()
-					okD := established(c, "(nil == sdk.ValidateDenom("+d+"))", true, call) || established(c, "(sdk.ValidateDenom("+d+") == nil)", true, call)
-					okA := established(c, "(0 <I "+a+")", true, call) || established(c, "("+a+" <I 0)", false, call) ||
+					okD := establishedCtx(c, "(nil == sdk.ValidateDenom("+d+"))", true, call, 0) || establishedCtx(c, "(sdk.ValidateDenom("+d+") == nil)", true, call, 0)
+					okA := establishedCtx(c, "(0 <I "+a+")", true, call, 0) || establishedCtx(c, "("+a+" <I 0)", false, call, 0) ||
 						regexp.MustCompile(`^sdkmath\.NewInt\(\d+\)$`).MatchString(a)
 					r.check(okD, "P-ctor", key("sdk.NewCoin/denom"), pos, "behind ValidateDenom("+d+") == nil", "sdk.NewCoin panics on an invalid denom; "+d+" is not validated on every path to this call")
 					r.check(okA, "P-ctor", key("sdk.NewCoin/amount"), pos, "behind amount > 0", "sdk.NewCoin panics on a negative amount; "+a+" is not proven positive here")
